@@ -334,6 +334,77 @@ theorem admitted_base_fee_le_declared (cfg : Cfg) (tx : Tx) (s : St)
     exact incurredOf_pos cfg m i hm)
   omega
 
+/-- The mempool state of an admitted transaction is charged exactly the base fee (what a later
+failure would cost) and the sequence advances — nothing else. -/
+theorem admitted_mempool_state_charged_base (cfg : Cfg) (tx : Tx) (s : St)
+    (h : (checkTx cfg tx s).2 = none) :
+    (∀ a d, (checkTx cfg tx s).1.ledger.bal a d =
+        s.ledger.bal a d + feeDeltaOnFailure cfg.collector tx.from (baseFee cfg.floor tx.gas) a d) ∧
+    (checkTx cfg tx s).1.seq = s.seq + 1 := by
+  unfold checkTx at h ⊢
+  cases hC : anteHandle cfg tx true s with
+  | error e' => simp [hC] at h
+  | ok p =>
+    obtain ⟨s1, m⟩ := p
+    obtain ⟨_, _, h3, h4, _, _⟩ := ante_spec hC
+    exact ⟨h4, h3⟩
+
+/-- **never more than declared**, failure side: an admitted transaction that fails in the block
+costs the paying account (when it is not the collector itself) at most its declared fee. -/
+theorem failed_admitted_tx_never_overcharged (cfg : Cfg) (tx : Tx) (s : St) (e : Err)
+    (hfee : ∀ d, 0 ≤ Coins.amountOf tx.fee d) (hadm : (checkTx cfg tx s).2 = none)
+    (h : (deliverTx cfg tx s).outcome = .failed e) (hsrc : tx.from ≠ cfg.collector) (d : Denom) :
+    s.ledger.bal tx.from d - Coins.amountOf tx.fee d ≤ (deliverTx cfg tx s).final.ledger.bal tx.from d := by
+  obtain ⟨h1, _, _, _⟩ := failed_tx_charges_base_fee_only cfg tx s e h
+  rw [h1 tx.from d]
+  unfold feeDeltaOnFailure
+  have := admitted_base_fee_le_declared cfg tx s hfee hadm d
+  simp [hsrc]
+  omega
+
+/-! ### Fee grants -/
+
+/-- A limited `BasicAllowance` is charged exactly the fee it is used for, never overdrawn, and is
+removed exactly when it is used up. -/
+theorem allowance_charged_exactly (l fee : Coins) (a' : Allow) (h : useGrantedFees (.lim l) fee = .ok a') :
+    (∀ d, 0 ≤ Coins.amountOf fee d ∧ Coins.amountOf fee d ≤ Coins.amountOf l d) ∧
+    (match a' with
+     | .lim l' => ∀ d, Coins.amountOf l' d = Coins.amountOf l d - Coins.amountOf fee d
+     | .none => ∀ d, Coins.amountOf l d = Coins.amountOf fee d
+     | .unl => False) := by
+  unfold useGrantedFees at h
+  simp only at h
+  split_ifs at h with h1 h2 h3
+  · have hf := nonneg_iff.mp (by simpa using h1)
+    have hl := nonneg_iff.mp (by simpa using h2)
+    have hz := isZero_iff.mp h3
+    cases h
+    refine ⟨fun d => ⟨hf d, ?_⟩, ?_⟩
+    · have := hl d; simp only [Coins.amountOf_sub] at this; omega
+    · intro d; have := hz d; simp only [Coins.amountOf_sub] at this; omega
+  · have hf := nonneg_iff.mp (by simpa using h1)
+    have hl := nonneg_iff.mp (by simpa using h2)
+    cases h
+    refine ⟨fun d => ⟨hf d, ?_⟩, ?_⟩
+    · have := hl d; simp only [Coins.amountOf_sub] at this; omega
+    · intro d; simp
+
+/-- On success the fee grant is used twice: for the base fee in the ante handler and for
+declared − base in the sweep; both uses succeed and name the granter as the paying account. -/
+theorem successful_tx_uses_grant_for_declared_fee (cfg : Cfg) (tx : Tx) (s : St)
+    (hc : cfg.collector ≠ "") (hwf : StepsWf tx.steps) (h : (deliverTx cfg tx s).outcome = .ok) :
+    getFeePayerUsingFeeGrant tx s.allow (baseFee cfg.floor tx.gas) = .ok (tx.from, (deliverTx cfg tx s).afterAnte.allow) ∧
+    ∃ rest : Coins, (∀ d, Coins.amountOf rest d = Coins.amountOf tx.fee d - Coins.amountOf (baseFee cfg.floor tx.gas) d) ∧
+      getFeePayerUsingFeeGrant tx (deliverTx cfg tx s).afterAnte.allow rest = .ok (tx.from, (deliverTx cfg tx s).final.allow) := by
+  obtain ⟨m, m2, hA, hR, hI⟩ := success_stages cfg tx s h
+  obtain ⟨a1, a2, _, _, _, a6⟩ := ante_spec hA
+  have hacct : Acct m.used [] := by rw [a1]; exact acct_nil
+  obtain ⟨hb, hA2⟩ := runSteps_acct tx.steps hwf hacct hR
+  simp only [List.nil_append] at hA2
+  obtain ⟨_, _, _, _, i5⟩ := invoke_spec hc hA2 hI
+  refine ⟨a6, Coins.sub tx.fee m2.base, ?_, i5⟩
+  intro d; simp [hb, a2 d]
+
 /-! ### Non-vacuity: concrete transactions that meet the hypotheses -/
 
 section Examples
@@ -374,6 +445,22 @@ example : (deliverTx exCfg exTx exSt).final.ledger.bal "R1" "hotdog" = 2 ∧
 example : (checkTx exCfg { exTx with fee := [("hotdog", 10), ("nhash", 285)] } exSt).2.isNone = true ∧
     (deliverTx exCfg { exTx with fee := [("hotdog", 10), ("nhash", 285)] } exSt).outcome.isFailed = true ∧
     (deliverTx exCfg { exTx with fee := [("hotdog", 10), ("nhash", 285)] } exSt).final.ledger.bal "P" "nhash" = 800 := by
+  decide
+
+-- fee grant: a limited allowance is charged exactly, and is removed when used up
+example : (match useGrantedFees (.lim [("nhash", 10)]) [("nhash", 4)] with
+    | .ok (.lim l) => Coins.amountOf l "nhash" | _ => -1) = 6 := by decide
+example : (match useGrantedFees (.lim [("nhash", 10)]) [("nhash", 10)] with | .ok .none => true | _ => false) = true := by
+  decide
+-- the same transaction paid by a granter whose allowance equals the declared fee: succeeds, the
+-- granter pays everything, the payer nothing, the allowance is gone
+def exStG : St :=
+  { ledger := Ledger.entries "G" [("nhash", 1000), ("hotdog", 10)] ++ Ledger.entries "X" [("nhash", 5)],
+    allow := .lim [("hotdog", 10), ("nhash", 287)] }
+example : (deliverTx exCfg { exTx with granter := some "G" } exStG).outcome.isOk = true ∧
+    (deliverTx exCfg { exTx with granter := some "G" } exStG).final.ledger.bal "G" "nhash" = 1000 - 287 ∧
+    (deliverTx exCfg { exTx with granter := some "G" } exStG).final.ledger.bal "P" "nhash" = 0 ∧
+    (match (deliverTx exCfg { exTx with granter := some "G" } exStG).final.allow with | .none => true | _ => false) = true := by
   decide
 
 end Examples
